@@ -179,6 +179,12 @@ class ContractDB:
                     kw = {k.arg: ast.literal_eval(k.value) for k in d.keywords}
                     c = Contract("tables", target, n, f, kw.pop("props", []), kw)
                     self.tables[target + "#" + n.name + str(n.lineno)] = c
+                elif isinstance(d, ast.Call) and isinstance(d.func, ast.Name) and d.func.id == "scan":
+                    # repository-wide syntactic obligations (finite data: every function body of the package, re-read on every run)
+                    target = ast.literal_eval(d.args[0])
+                    kw = {k.arg: ast.literal_eval(k.value) for k in d.keywords}
+                    c = Contract("scan", target, n, f, kw.pop("props", []), kw)
+                    self.tables[target + "#scan#" + n.name + str(n.lineno)] = c
                 elif isinstance(d, ast.Call) and isinstance(d.func, ast.Name) and d.func.id == "frame":
                     target = ast.literal_eval(d.args[0])
                     kw = {k.arg: ast.literal_eval(k.value) for k in d.keywords}
